@@ -18,7 +18,10 @@ ARR = ("ARRAY", INT, INT)
 ARRB = ("ARRAY", INT, BOOL)
 FUN = ("FUN", INT, (INT,))
 CUS = ("CUSTOM", "U")
+# user-declared sorts that are merely *named* like built-in ones (types are compared structurally, not by name)
+CUSI, CUSS = ("CUSTOM", "Int"), ("CUSTOM", "String")
 SORTS = [BOOL, INT, REAL, STRING, BVW, BVV, ARR, ARRB, FUN, CUS]
+NAMESAKES = [CUSI, CUSS]
 
 # constructor, operator built, arity (or list of arities), extra python parameters (name -> kind)
 CTORS = [
@@ -31,7 +34,7 @@ CTORS = [
     ("BVLShr", "BV_LSHR", 2), ("BVAShr", "BV_ASHR", 2), ("BVULT", "BV_ULT", 2), ("BVULE", "BV_ULE", 2),
     ("BVSLT", "BV_SLT", 2), ("BVSLE", "BV_SLE", 2), ("BVComp", "BV_COMP", 2), ("BVConcat", "BV_CONCAT", 2),
     ("BVToNatural", "BV_TONATURAL", 1),
-    ("StrLength", "STR_LENGTH", 1), ("StrConcat", "STR_CONCAT", [2, 3]), ("StrContains", "STR_CONTAINS", 2),
+    ("StrLength", "STR_LENGTH", 1), ("StrConcat", "STR_CONCAT", [1, 2, 3]), ("StrContains", "STR_CONTAINS", 2),
     ("StrIndexOf", "STR_INDEXOF", 3), ("StrReplace", "STR_REPLACE", 3), ("StrSubstr", "STR_SUBSTR", 3),
     ("StrPrefixOf", "STR_PREFIXOF", 2), ("StrSuffixOf", "STR_SUFFIXOF", 2), ("StrToInt", "STR_TO_INT", 1),
     ("IntToStr", "INT_TO_STR", 1), ("StrCharAt", "STR_CHARAT", 2),
@@ -214,7 +217,7 @@ def _s(sort):
     if sort[0] == "FUN":
         return "Fun"
     if sort[0] == "CUSTOM":
-        return "U"
+        return "U" if sort[1] == "U" else "sort-named-%s" % sort[1]
     return sort[0].title()
 
 
@@ -223,7 +226,10 @@ def jobs(tier):
     for ctor, op, ar in CTORS:
         for n in (ar if isinstance(ar, list) else [ar]):
             if n <= 2:
-                combos = itertools.product(SORTS, repeat=n)
+                combos = list(itertools.product(SORTS, repeat=n))
+                # namesake sorts next to the built-in sort they are named after and next to themselves
+                for ns, bi in ((CUSI, INT), (CUSS, STRING)):
+                    combos += [(ns,)] if n == 1 else [(ns, bi), (bi, ns), (ns, ns), (ns, CUS), (ARR, ns)]
             else:
                 # three operands: all triples over a reduced set, plus every sort in every position
                 red = [BOOL, INT, STRING, BVW, ARR] if tier == "thorough" else [BOOL, INT, BVW]
